@@ -2,6 +2,9 @@ module verif/sim
 
 go 1.26
 
+// math/rand's global source must be seedable per run (jsonclient jitter, trillian back-off, ctpolicy sampling)
+godebug randseednop=0
+
 require (
 	github.com/anishathalye/porcupine v1.3.0
 	github.com/google/certificate-transparency-go v0.0.0
@@ -21,6 +24,7 @@ require (
 	github.com/jackc/pgservicefile v0.0.0-20240606120523-5a60cdf6a761 // indirect
 	github.com/jackc/pgx/v5 v5.7.4 // indirect
 	github.com/jackc/puddle/v2 v2.2.2 // indirect
+	github.com/transparency-dev/merkle v0.0.2 // indirect
 	golang.org/x/crypto v0.36.0 // indirect
 	golang.org/x/net v0.38.0 // indirect
 	golang.org/x/sync v0.12.0 // indirect
